@@ -280,14 +280,22 @@ pub open spec fn keys_of(s: Seq<RefMulti<'_, String, Vec<FixtureDefinition>>>) -
 }
 
 // ---- callHierarchy/incomingCalls ---------------------------------------------------------------------------
-/// the definition incoming / outgoing calls work for: RESOLVER = NONE — the FIRST definition registered under the
-/// item's name whose file is the item's URI; the item's range / line is not consulted
-pub open spec fn item_def(v: NavV, name: Seq<char>, uri: Uri) -> Option<DefV> {
+/// the definition incoming / outgoing calls work for (RESOLVER = NONE; re-identification of the prepared item, since
+/// the repair of F-05c BY ITS OWN LINE): among the definitions registered under the item's name, the first one in the
+/// file of the item's URI that sits ON the line of the item's selection range (sel_line + 1); if there is none (stale
+/// item), the FIRST definition of that name in the file
+pub open spec fn item_def(v: NavV, name: Seq<char>, uri: Uri, sel_line: u32) -> Option<DefV> {
     match uri_path(uri) {
         None => None,
-        Some(p) => first_match(bucket(v.defs, name), p_same(p, fs_true())),
+        Some(p) => match first_match(bucket(v.defs, name), p_def_line(p, sel_line as int + 1)) {
+            Some(d) => Some(d),
+            None => first_match(bucket(v.defs, name), p_same(p, fs_true())),
+        },
     }
 }
+/// exec-level reading of p_def_line (a NAMED predicate: a conjunction inlined in a `find` closure contract sends Z3
+/// into a matching loop, cf. x_ws_plugin in prelude/avail_spec.rs)
+pub open spec fn x_def_on_line(d: &FixtureDefinition, file: PV, line: usize) -> bool { pbv(&d.file_path) == file && d.line == line }
 /// ASSUMED callee (resolver.rs find_containing_function: AST search): name of the function around a line
 pub uninterp spec fn containing_fn(cache: Map<PV, String>, file: PV, line: usize) -> Option<Seq<char>>;
 /// uninterpreted: `Path::display().to_string()`
@@ -313,14 +321,14 @@ pub open spec fn in_calls(v: NavV, us: Seq<UseV>, od: Option<DefV>) -> Seq<InCal
     }
 }
 /// incoming calls = the references (op_refs) of item_def
-pub open spec fn op_handle_incoming(v: NavV, name: Seq<char>, uri: Uri) -> Option<Seq<InCallV>> {
-    match item_def(v, name, uri) {
+pub open spec fn op_handle_incoming(v: NavV, name: Seq<char>, uri: Uri, sel_line: u32) -> Option<Seq<InCallV>> {
+    match item_def(v, name, uri, sel_line) {
         None => None,
         Some(d) => Some(in_calls(v, op_refs(v.defs, v.byfix, v.provf, d), Some(d))),
     }
 }
-pub open spec fn in_fits(v: NavV, name: Seq<char>, uri: Uri) -> bool {
-    item_def(v, name, uri) is Some ==> uses_fit(op_refs(v.defs, v.byfix, v.provf, item_def(v, name, uri)->0))
+pub open spec fn in_fits(v: NavV, name: Seq<char>, uri: Uri, sel_line: u32) -> bool {
+    item_def(v, name, uri, sel_line) is Some ==> uses_fit(op_refs(v.defs, v.byfix, v.provf, item_def(v, name, uri, sel_line)->0))
 }
 pub open spec fn opt_in_calls_view(r: jsonrpc::Result<Option<Vec<CallHierarchyIncomingCall>>>) -> Option<Seq<InCallV>> {
     match r { Ok(Some(v)) => Some(in_calls_v(v@)), _ => None }
